@@ -88,6 +88,6 @@ def enumerations(tier):
 
 
 def strategies(tier):
-    return [("drawn-schedules", PC.pool_strategy(max_calls=1), 200000 if tier == "thorough" else 6000),
+    return [("drawn-schedules", PC.pool_strategy(max_calls=2), 200000 if tier == "thorough" else 6000),
             ("drawn-none-and-falsy-items", PC.pool_strategy(max_calls=1).map(PC.with_special_items), 20000 if tier == "thorough" else 800),
             ("real-processes", PC.real_strategy(PC.pool_strategy(max_calls=1)), 300 if tier == "thorough" else 14, {"shrink": False})]
